@@ -204,11 +204,11 @@ class Protocol:
     has: dict = {}  # hasattr answers: name -> True/False/None(unknown => uninterpreted)
 
     def version(self, st, recv):
-        return st.ghost.setdefault("ver", {}).get(str(recv.e), 0)
+        return st.ghost.setdefault("ver", {}).get(V.zstr(recv.e), 0)
 
     def bump(self, st, recv):
         d = st.ghost.setdefault("ver", {})
-        d[str(recv.e)] = st.counter + 1000
+        d[V.zstr(recv.e)] = st.counter + 1000
         st.counter += 1
 
     def uf_value(self, st, name, recv, argterms, shape, ver):
@@ -227,7 +227,7 @@ class Protocol:
         if m.ensures is not None and not getattr(m, "ensures_on_call_only", False):
             for f in m.ensures(st, recv, vals, r) or ():
                 st.assume(f)
-        st.ghost.setdefault("uf_calls", []).append((str(recv.e), name, dict(vals), r))
+        st.ghost.setdefault("uf_calls", []).append((V.zstr(recv.e), name, dict(vals), r))
         return r
 
     def getattr(self, ip, st, obj, name):
@@ -252,7 +252,7 @@ class Protocol:
         if h is None or h == "uf":
             f = z3.Function(f"{self.kind}.has_{name}", obj.e.sort(), z3.BoolSort())
             r = mk_bool(f(obj.e))
-            st.ghost.setdefault("uf_calls", []).append((str(obj.e), f"hasattr:{name}", {}, r))
+            st.ghost.setdefault("uf_calls", []).append((V.zstr(obj.e), f"hasattr:{name}", {}, r))
             return r
         return h
 
@@ -298,7 +298,7 @@ class Protocol:
             for f in m.ensures(st, recv, vals, result) or ():
                 st.assume(f)
         st.event("call", recv, name, dict(vals), result)
-        st.ghost.setdefault("uf_calls", []).append((str(recv.e), name, dict(vals), result))
+        st.ghost.setdefault("uf_calls", []).append((V.zstr(recv.e), name, dict(vals), result))
         return result
 
 
